@@ -124,6 +124,7 @@ def layout_ok(s, toks):
 ALPHA_A = "ae01'\"\\/* \n+-."
 ALPHA_B = "aR_x0179'\"\\/*!<# \n+-.=:e&"
 ALPHA_C = "a1'\"\\/* \n"
+ALPHA_D = "01x9fbXe'+-.>*uL;"
 
 
 def all_strings(alpha, n):
@@ -316,6 +317,8 @@ def gen_cases(c, fl):
         cases.append(("L0", s, None, "exh"))
         if s.count("/") >= 2:
             cases.append(("S0", s, None, "exh"))
+    for s in all_strings(ALPHA_D, 4):  # hexadecimal / binary prefixes, exponents, suffixes, -> and ->*
+        cases.append(("L0", s, None, "exh"))
     g = Gen(rng, fl["hex"], fl["exp"], fl["arrow"])
     for i in range(c.pick(12000, 120000)):
         cas = i % 3 == 0
@@ -510,7 +513,10 @@ def main(c):
     if not fx:
         c.notes.append("pinned stripComments also drops a backward doxygen comment whose documented token is the first token "
                        "(\"x /*!<b*/\": comment of x empty; \"y x /*!<b*/\": attached) -- same statement, mirrored by the model, fixed by the same patch")
-    files = MODEL + ["C31Spec.v", "C31Proofs.v", "C31Round.v", "Properties_C31.v", "Properties_C31_strip_%s.v" % ("fixed" if fx else "today")]
+    sel = lambda k: "fixed" if fl[k] else "today"
+    files = MODEL + ["C31Spec.v", "C31Proofs.v", "C31Whole.v", "C31Lang.v", "C31Round.v", "C31Classes.v", "C31Variants.v", "Properties_C31.v",
+                     "Properties_C31_strip_%s.v" % sel("strip"), "Properties_C31_hex_%s.v" % sel("hex"),
+                     "Properties_C31_exp_%s.v" % sel("exp"), "Properties_C31_arrow_%s.v" % sel("arrow")]
     res = c.coq(files, timeout=900)
     c.log("coq done")
     if not res.ok:
